@@ -1,5 +1,5 @@
-// Package hook carries the three seams the overlay installs into the code under test:
-// process exit (pkg/libs/log), dialing (redis-shake/common) and nothing else.
+// Package hook carries the seams the overlay installs into the code under test: process exit
+// (pkg/libs/log), dialing (redis-shake/common) and the sender's timer case (redis-shake/dbSync).
 package hook
 
 import (
@@ -65,4 +65,25 @@ func Dial(network, addr string) (net.Conn, error, bool) {
 		return nil, nil, false
 	}
 	return f(network, addr)
+}
+
+// Timer-case seam (redis-shake/dbSync): called by the sender at the start of every select case
+// that fires on a timer/ticker channel next to the command queue, i.e. at the preemption point
+// between "the flush timer fired" and "the sender looks at the queue". The harness may let the
+// source deliver more bytes exactly there.
+var timerCaseHook func()
+
+func SetTimerCaseHook(f func()) {
+	mu.Lock()
+	timerCaseHook = f
+	mu.Unlock()
+}
+
+func TimerCase() {
+	mu.Lock()
+	f := timerCaseHook
+	mu.Unlock()
+	if f != nil {
+		f()
+	}
 }
